@@ -64,6 +64,9 @@ pub enum Op {
     CallDupSerial,
     /// subscribe without serial
     SubscribeNoSerial,
+    /// any of the 63 kinds from upstream's Arbitrary derive, ids partly redirected to live and
+    /// stale pools, payload well-formed or garbage
+    Arbitrary,
 }
 
 #[derive(Debug, Clone)]
@@ -99,6 +102,7 @@ pub struct Gen {
     /// synthetic serials of calls seen at callees (for replies, also after completion)
     pub seen_callee_serials: Vec<(usize, u32)>,
     pub type_pool: Vec<Uuid>,
+    force: Option<usize>,
 }
 
 pub fn pool_uuid(space: u8, i: usize) -> Uuid {
@@ -121,6 +125,7 @@ impl Gen {
             bogus: 0,
             seen_callee_serials: Vec::new(),
             type_pool: (0..3).map(|i| pool_uuid(9, i)).collect(),
+            force: None,
         }
     }
 
@@ -278,9 +283,27 @@ impl Gen {
         self.profile.weights[0].0
     }
 
+    /// An operation issued by connection `c` (a plain message, no termination), if one can be
+    /// drawn within a few attempts.
+    pub fn next_for(&mut self, m: &Model, c: usize) -> Option<Input> {
+        for _ in 0..40 {
+            self.force = Some(c);
+            let r = self.next(m);
+            self.force = None;
+            match r {
+                Some(Input::Msg(who, msg)) if who == c && !matches!(msg, Message::Shutdown(_)) => return Some(Input::Msg(who, msg)),
+                _ => {}
+            }
+        }
+        None
+    }
+
     /// Next input (synthetic id space). `None` if the drawn operation is not applicable now.
     pub fn next(&mut self, m: &Model) -> Option<Input> {
-        let alive = self.alive(m);
+        let mut alive = self.alive(m);
+        if let Some(f) = self.force {
+            alive.retain(|&c| c == f);
+        }
         let op = self.draw_op();
         if op == Op::Connect {
             if m.conns.len() < self.profile.max_conns_total {
@@ -646,6 +669,92 @@ impl Gen {
                     return None;
                 }
                 self.rng.pick(&ok).clone()
+            }
+            Op::Arbitrary => {
+                use arbitrary::{Arbitrary, Unstructured};
+                let n = 24 + self.rng.below(200);
+                let mut data = self.rng.bytes(n);
+                if self.rng.chance(1, 4) {
+                    for b in data.iter_mut().skip(1) {
+                        if self.rng.chance(1, 3) {
+                            *b = *self.rng.pick(&[0u8, 1, 0xff, 0x7f, 0x80]);
+                        }
+                    }
+                }
+                let mut u = Unstructured::new(&data);
+                let Ok(mut msg) = Message::arbitrary(&mut u) else { return None };
+                // connection-level kinds are exercised by their own operations
+                if matches!(msg, Message::Shutdown(_)) {
+                    return None;
+                }
+                // redirect ids to live / stale entities
+                let m2 = m.clone();
+                let mut picks: Vec<(super::model::CookieKind, Uuid)> = Vec::new();
+                for k in [super::model::CookieKind::Object, super::model::CookieKind::Service, super::model::CookieKind::Channel, super::model::CookieKind::Listener] {
+                    let u = match k {
+                        super::model::CookieKind::Object => self.pick_obj_cookie(&m2, Some(c)).0,
+                        super::model::CookieKind::Service => self.pick_svc_cookie(&m2, None).0,
+                        super::model::CookieKind::Channel => self.pick_chan(&m2).0,
+                        super::model::CookieKind::Listener => self.pick_listener(&m2, c).0,
+                    };
+                    picks.push((k, u));
+                }
+                let redirect = self.rng.chance(3, 4);
+                if redirect {
+                    super::msgmap::visit_cookies(&mut msg, &mut |k, u| {
+                        if let Some((_, p)) = picks.iter().find(|(pk, _)| *pk == k) {
+                            *u = *p;
+                        }
+                    });
+                }
+                if let Some((space, s)) = super::msgmap::broker_serial_in(&mut msg) {
+                    let pend: Vec<u32> = if space == 0 { m.calls.values().map(|k| k.callee_serial).collect() } else { m.intro.values().filter_map(|e| e.asked.map(|(_, s)| s)).collect() };
+                    if !pend.is_empty() && self.rng.chance(2, 3) {
+                        *s = *self.rng.pick(&pend);
+                    }
+                }
+                // uuids of objects / services from the pool, so that creations collide
+                match &mut msg {
+                    Message::CreateObject(x) if self.rng.chance(2, 3) => x.uuid = ObjectUuid(pool_uuid(1, self.rng.below(self.profile.obj_pool))),
+                    Message::CreateService(x) if self.rng.chance(2, 3) => x.uuid = ServiceUuid(pool_uuid(2, self.rng.below(self.profile.svc_pool))),
+                    Message::CreateService2(x) if self.rng.chance(2, 3) => x.uuid = ServiceUuid(pool_uuid(2, self.rng.below(self.profile.svc_pool))),
+                    Message::CallFunction(x) if m.conns[c].calls.contains_key(&x.serial) && self.rng.bool() => x.serial = self.next_serial(c),
+                    _ => {}
+                }
+                // payload: well-formed for the sender's version, or garbage where no peer has
+                // to re-encode it (DESIGN C11; the re-encoding case is a known finding with its
+                // own probe)
+                let wv = v;
+                let garbage_ok = wv < 20 && !matches!(msg, Message::QueryIntrospectionReply(_));
+                let new_payload = if garbage_ok && self.rng.chance(1, 3) {
+                    let n = 1 + self.rng.below(24);
+                    real::sv_from_bytes(&self.rng.bytes(n)).unwrap()
+                } else {
+                    self.payload(wv)
+                };
+                let keep_struct = matches!(msg, Message::CreateService2(_) | Message::RegisterIntrospection(_)) && self.rng.chance(1, 2);
+                if let Some(val) = msg.value_mut() {
+                    if !keep_struct {
+                        *val = new_payload;
+                    } else {
+                        // a well-formed structural payload
+                        *val = SerializedValue::serialize(ServiceInfo::new(1)).unwrap();
+                        if wv < 20 {
+                            let _ = val.convert(None, aldrin_core::ProtocolVersion::new(1, wv));
+                        }
+                    }
+                }
+                if let Message::RegisterIntrospection(x) = &mut msg {
+                    if keep_struct {
+                        let mut ids = std::collections::HashSet::new();
+                        ids.insert(TypeId(self.type_pool[0]));
+                        x.value = SerializedValue::serialize(&ids).unwrap();
+                        if wv < 20 {
+                            let _ = x.value.convert(None, aldrin_core::ProtocolVersion::new(1, wv));
+                        }
+                    }
+                }
+                msg
             }
             Op::WrongDirection => {
                 let s = self.next_serial(c);
